@@ -14,6 +14,10 @@ XH = ('CrossHair symbolic execution (z3 decides every branch) of the real flax '
       'functions over bounded symbolic arguments, path tree exhausted per obligation; '
       'counterexamples replayed on untraced code')
 
+XHS = XH + '; JAX primitives replaced by stubs of their documented contract'
+ENGC = ('symbolic-tensor execution of the real layer code (jnp/lax rebound to a z3-'
+        'term array shim) + z3 unsat of output != reference (QF_UFNRA)')
+
 check('C13',
       'SLICES of the property (symbolic-tensor proofs): attention masks as Boolean '
       'formulas; dot_product_attention_weights/dot_product_attention (Linen, NNX) '
@@ -53,10 +57,6 @@ check('C19',
       'Real lift.vmap/scan / nnx.vmap driving these calls is outside (JAX '
       'tracing); the call protocol (add after mapping, remove before) is read '
       'from lift.py.', XH, 'DESIGN.md §4 C19')
-
-XHS = XH + '; JAX primitives replaced by stubs of their documented contract'
-ENGC = ('symbolic-tensor execution of the real layer code (jnp/lax rebound to a z3-'
-        'term array shim) + z3 unsat of output != reference (QF_UFNRA)')
 
 check('C01',
       'Bounded symbolic check: flax.core.apply/init and Module.apply on scope '
